@@ -152,6 +152,8 @@ pub struct HExec {
     /// the harness' own record of the latest inserted version / size per key (for the origin of fetches)
     pub truth: BTreeMap<u64, (u64, char)>,
     pub held: bool,
+    /// do not touch the watchdog's current-operation / current-trace state (the caller maintains it)
+    pub quiet: bool,
 }
 
 fn show(v: Vec<String>) -> String {
@@ -160,8 +162,18 @@ fn show(v: Vec<String>) -> String {
 
 impl HExec {
     pub fn new(cfg: HybCfg) -> Self {
+        Self::with_image(cfg, None)
+    }
+
+    /// Open on a prepared device image: one byte vector per partition (tombstone log first, if enabled).
+    pub fn with_image(cfg: HybCfg, image: Option<&[Vec<u8>]>) -> Self {
         let rt = tokio::runtime::Builder::new_current_thread().enable_all().build().unwrap();
         let dir = tempfile::tempdir().unwrap();
+        if let Some(parts) = image {
+            for (i, bytes) in parts.iter().enumerate() {
+                std::fs::write(dir.path().join(format!("foyer-storage-direct-fs-{i:08}")), bytes).unwrap();
+            }
+        }
         let mut ex = HExec {
             evlog: Default::default(),
             cfg,
@@ -173,6 +185,7 @@ impl HExec {
             next_ver: 1,
             truth: BTreeMap::new(),
             held: false,
+            quiet: false,
         };
         ex.open();
         ex
@@ -271,7 +284,9 @@ impl HExec {
     }
 
     pub fn exec(&mut self, op: &HOp) -> String {
-        crate::progress(&Self::op_text(op));
+        if !self.quiet {
+            crate::progress(&Self::op_text(op));
+        }
         let mut line = Self::op_text(op);
         self.evlog.lock().clear();
         let log_from = self.sim.next_id();
@@ -493,10 +508,12 @@ impl HExec {
             let disk2: Vec<String> = (0..self.cfg.keys).filter(|k| cache.storage().may_contains(k)).map(|k| k.to_string()).collect();
             let _ = write!(line, " loads={} disk2={}", show(loads), show(disk2));
         }
-        crate::CUR_OP.lock().clear();
-        let mut t = crate::CUR_TRACE.lock();
-        t.push_str(&line);
-        t.push('\n');
+        if !self.quiet {
+            crate::CUR_OP.lock().clear();
+            let mut t = crate::CUR_TRACE.lock();
+            t.push_str(&line);
+            t.push('\n');
+        }
         line
     }
 }
